@@ -296,4 +296,29 @@ theorem order_dependence_without_tiebreak :
    [⟨"b", 10, (), []⟩, ⟨"b", 100, (), []⟩], [⟨"b", 100, (), []⟩, ⟨"b", 10, (), []⟩],
    List.Perm.swap _ _ _, by decide, by decide⟩
 
+/-
+TIES (DESIGN 3.3) - theorem : model definitions unfolded ; Gen constants used ; how tied to the code
+
+no_client_slice_writes            : - ; Gen.C05ClientSliceWrites.sites ; translator (taint pass) regenerated every run
+taint_pass_nonvacuous             : - ; Gen.C05ClientSliceWrites.{sources,clones,functionsAnalysed} ; translator
+resolver_shared_expected          : - ; Gen.C05ResolverShared.{fields,fieldWrites,pkgVarWrites} ; translator
+lru_caps_positive, lru_caps_cover_cache_fields, pypi_fresh_caches_ok : Lru.new ; Gen.C05LruCaps.caps ; translator
+lru_model_agrees_with_recorded_runs, lru_recorded_runs_nonvacuous : Lru.{new,get,add,replay} ; Gen.C05LruTraces.traces ;
+                                    runs of the real lru.go recorded by the translator, replayed in the kernel
+interleave_readonly, interleave_result, writes_break_schedule_independence :
+                                    Purity.{stepT,solo,runSchedule,runScheduleW} ; - ; generic; applicability to the
+                                    resolvers = no_client_slice_writes + resolver_shared_expected + replay oracle (conc)
+memo_correct, history_independent, shared_cache_schedule_independent, lru_wellformed :
+                                    Lru.{get,add,getOrCompute,runCalls,Prog.run,Prog.pure,runSched} ; - ; LRU model tied as above;
+                                    that parseMarker / getConstraint / matchingVersionsWithPrereleases have the
+                                    get-or-compute shape of `Memo` is by reading (pypi/resolve.go l.464-543, 614-625) and
+                                    the replay oracle (hist)
+pypi_caches_invisible, pypi_resolutions_compose : Lru.{Prog2,Prog3}.{run,pure} ; - ; same
+insertion_order_independent, versions_are_sorted_set : Purity.{addVersion,build,upsert,ensure,Store.*} ; - ;
+                                    model of client.go l.82-155, tied by the replay oracle (perm: client dump and graphs);
+                                    the C14 builder's model of the same code is independent of this one
+sort_result_unique, sortCanon_of_total_comparator, insertionSort_canon, order_dependence_without_tiebreak :
+                                    Purity.{Sorted,TotalOn,SortSpec,insertionSort} ; - ; Go's sort.Slice assumed to meet SortSpec
+-/
+
 end DepsDev.Props.C05
